@@ -26,7 +26,9 @@ CONSTANTS Langs,             \* language tags, e.g. {"en", "engb", "es"}; "engb"
           MaxClock,
           MaxDamage,         \* at most this many Damage actions per behaviour
           FullFlagInverted,  \* as built: the full-Unicode check ignores file times exactly when CheckRuleFiles = "All"
-          RegionSharesRules  \* a regional variant falls back to the language's rule files but has its own Unicode file
+          RegionSharesRules, \* a regional variant falls back to the language's rule files but has its own Unicode file
+          FailedLoadKeepsRecord, \* as built at 519253d: a failed (re)load leaves the table's file/time record in place
+          RepointKeepsTables     \* as built at 519253d: set_rules_dir does not forget the tables
 
 Modes == {"Prefs", "All"}                       \* CheckRuleFiles ("None" behaves like "Prefs" for the tables)
 SpeechSets == {"Intent", "Speech", "Overview", "Navigation"}
@@ -49,8 +51,11 @@ AllFiles == {RuleFile(R, l, c) : R \in Sets, l \in Langs, c \in Codes}
             \cup {DefsFile(s, l, c) : s \in Sides, l \in Langs, c \in Codes}
 
 None == <<"none">>
-Entry(f, v, t, sh) == [file |-> f, ver |-> v, time |-> t, shape |-> sh]   \* what a table holds: which file, which version
+\* what a table holds: the recorded file and time, the version and shape of the content; partial = the content is the debris
+\* of a failed load although the record still names a file
+Entry(f, v, t, sh) == [file |-> f, ver |-> v, time |-> t, shape |-> sh, partial |-> FALSE]
 Empty == Entry(None, 0, 0, "good")
+Failed(e) == IF FailedLoadKeepsRecord /\ e.file # None THEN [e EXCEPT !.partial = TRUE] ELSE Empty
 
 VARIABLES lang, code, mode,     \* preferences
           fs,                   \* [AllFiles -> [ver, mtime, shape]]
@@ -60,8 +65,9 @@ VARIABLES lang, code, mode,     \* preferences
           ushort, ufull, defs,  \* [Sides -> Entry]      shared tables
           ushortLoaded, ufullLoaded,
           damaged,              \* number of Damage actions so far
+          repointed,            \* set_rules_dir was called after the last repair (all files good) and nothing was damaged since
           act                   \* last action: [name, arg, res, stale]
-vars == <<lang, code, mode, fs, clock, own, loaded, ushort, ufull, defs, ushortLoaded, ufullLoaded, damaged, act>>
+vars == <<lang, code, mode, fs, clock, own, loaded, ushort, ufull, defs, ushortLoaded, ufullLoaded, damaged, repointed, act>>
 
 Init == /\ lang \in Langs /\ code \in Codes /\ mode = "Prefs"
         /\ fs = [f \in AllFiles |-> [ver |-> 1, mtime |-> 1, shape |-> "good"]]
@@ -69,7 +75,7 @@ Init == /\ lang \in Langs /\ code \in Codes /\ mode = "Prefs"
         /\ own = [R \in Sets |-> Empty] /\ loaded = [R \in Sets |-> FALSE]
         /\ ushort = [s \in Sides |-> Empty] /\ ufull = [s \in Sides |-> Empty] /\ defs = [s \in Sides |-> Empty]
         /\ ushortLoaded = [s \in Sides |-> FALSE] /\ ufullLoaded = [s \in Sides |-> FALSE]
-        /\ damaged = 0
+        /\ damaged = 0 /\ repointed = FALSE
         /\ act = [name |-> "init", arg |-> "", res |-> "ok", stale |-> FALSE]
 
 \* FilesAndTimes::is_file_up_to_date
@@ -87,18 +93,19 @@ ReadFiles(R, st) ==
       needOwn == ~st.loaded[R] \/ ~UpToDate(st.own[R], rf, ignoreTime)
       st1 == IF ~needOwn THEN [st EXCEPT !.ok = TRUE]
              ELSE IF fs[rf].shape = "broken"
-                  THEN [st EXCEPT !.loaded[R] = FALSE, !.ok = FALSE]                    \* rules.clear(); read()? fails
+                  \* rules.clear(); read()? fails: the table is empty or half filled (non-empty!)
+                  THEN [st EXCEPT !.own[R] = Failed(@), !.loaded[R] = (FailedLoadKeepsRecord /\ st.own[R].file # None), !.ok = FALSE]
                   ELSE [st EXCEPT !.own[R] = LoadOf(rf), !.loaded[R] = TRUE, !.ok = TRUE]
       uf == UniFile(s, lang, code)
       needUni == ~UpToDate(st1.ushort[s], uf, ignoreTime)
       st2 == IF ~st1.ok \/ ~needUni THEN st1
              ELSE IF fs[uf].shape = "broken"
-                  THEN [st1 EXCEPT !.ushortLoaded[s] = FALSE, !.ok = FALSE]
+                  THEN [st1 EXCEPT !.ushort[s] = Failed(@), !.ushortLoaded[s] = FALSE, !.ok = FALSE]
                   ELSE [st1 EXCEPT !.ushort[s] = LoadOf(uf), !.ushortLoaded[s] = TRUE]
       df == DefsFile(s, lang, code)
       needDefs == ~UpToDate(st2.defs[s], df, ignoreTime)
       st3 == IF ~st2.ok \/ ~needDefs THEN st2
-             ELSE IF fs[df].shape = "broken" THEN [st2 EXCEPT !.ok = FALSE]
+             ELSE IF fs[df].shape = "broken" THEN [st2 EXCEPT !.defs[s] = Failed(@), !.ok = FALSE]
                   ELSE [st2 EXCEPT !.defs[s] = LoadOf(df)]
   IN st3
 
@@ -108,7 +115,7 @@ FullLookup(s, uf0, ufl0) ==
       ignoreTime == IF FullFlagInverted THEN mode = "All" ELSE mode # "All"
       need == ~ufl0[s] \/ ~UpToDate(uf0[s], ff, ignoreTime)
   IN IF ~need THEN [ufull |-> uf0, ufl |-> ufl0, ok |-> TRUE]
-     ELSE IF fs[ff].shape = "broken" THEN [ufull |-> uf0, ufl |-> [ufl0 EXCEPT ![s] = FALSE], ok |-> FALSE]
+     ELSE IF fs[ff].shape = "broken" THEN [ufull |-> [uf0 EXCEPT ![s] = Failed(@)], ufl |-> [ufl0 EXCEPT ![s] = (FailedLoadKeepsRecord /\ uf0[s].file # None)], ok |-> FALSE]
      ELSE [ufull |-> [uf0 EXCEPT ![s] = LoadOf(ff)], ufl |-> [ufl0 EXCEPT ![s] = TRUE], ok |-> TRUE]
 
 \* rule sets a public getter reads, in order
@@ -122,7 +129,7 @@ RECURSIVE ReadAll(_, _)
 ReadAll(rs, st) == IF rs = <<>> \/ ~st.ok THEN st ELSE ReadAll(Tail(rs), ReadFiles(Head(rs), st))
 
 \* Is what the getter consulted what the preferences and the file system say it should be?
-FreshEntry(e, f) == e.file = f /\ e.ver = fs[f].ver
+FreshEntry(e, f) == e.file = f /\ e.ver = fs[f].ver /\ ~e.partial
 StaleAfter(g, st, full, miss) ==
   LET s == Side(Uses(g)[1]) IN
   \/ \E i \in 1..Len(Uses(g)) : ~FreshEntry(st.own[Uses(g)[i]], RuleFile(Uses(g)[i], lang, code))
@@ -141,28 +148,42 @@ Getter(g, miss) ==
      /\ ufull' = fl.ufull /\ ufullLoaded' = fl.ufl
      /\ act' = [name |-> g, arg |-> IF miss THEN "miss" ELSE "hit", res |-> IF ok THEN "ok" ELSE "err",
                 stale |-> ok /\ StaleAfter(g, st, fl.ufull, miss /\ g # "set_mathml")]
-     /\ UNCHANGED <<lang, code, mode, fs, clock, damaged>>
+     /\ UNCHANGED <<lang, code, mode, fs, clock, damaged, repointed>>
 
 SetLanguage(l) == /\ l # lang /\ lang' = l
                   /\ act' = [name |-> "Language", arg |-> l, res |-> "ok", stale |-> FALSE]
-                  /\ UNCHANGED <<code, mode, fs, clock, own, loaded, ushort, ufull, defs, ushortLoaded, ufullLoaded, damaged>>
+                  /\ UNCHANGED <<code, mode, fs, clock, own, loaded, ushort, ufull, defs, ushortLoaded, ufullLoaded, damaged, repointed>>
 SetCode(c) == /\ c # code /\ code' = c
               /\ act' = [name |-> "BrailleCode", arg |-> c, res |-> "ok", stale |-> FALSE]
-              /\ UNCHANGED <<lang, mode, fs, clock, own, loaded, ushort, ufull, defs, ushortLoaded, ufullLoaded, damaged>>
+              /\ UNCHANGED <<lang, mode, fs, clock, own, loaded, ushort, ufull, defs, ushortLoaded, ufullLoaded, damaged, repointed>>
 SetMode(m) == /\ m # mode /\ mode' = m
               /\ act' = [name |-> "CheckRuleFiles", arg |-> m, res |-> "ok", stale |-> FALSE]
-              /\ UNCHANGED <<lang, code, fs, clock, own, loaded, ushort, ufull, defs, ushortLoaded, ufullLoaded, damaged>>
+              /\ UNCHANGED <<lang, code, fs, clock, own, loaded, ushort, ufull, defs, ushortLoaded, ufullLoaded, damaged, repointed>>
+
+AllGood == \A f \in AllFiles : fs[f].shape = "good"
+\* set_rules_dir (same directory): the documented way to recover when file times are not checked
+SetRulesDir == /\ Faults
+               /\ IF RepointKeepsTables
+                  THEN UNCHANGED <<own, loaded, ushort, ufull, defs, ushortLoaded, ufullLoaded>>
+                  ELSE /\ own' = [R \in Sets |-> Empty] /\ loaded' = [R \in Sets |-> FALSE]
+                       /\ ushort' = [s \in Sides |-> Empty] /\ ufull' = [s \in Sides |-> Empty] /\ defs' = [s \in Sides |-> Empty]
+                       /\ ushortLoaded' = [s \in Sides |-> FALSE] /\ ufullLoaded' = [s \in Sides |-> FALSE]
+               /\ act' = [name |-> "SetRulesDir", arg |-> "", res |-> "ok", stale |-> FALSE]
+               /\ repointed' = AllGood
+               /\ UNCHANGED <<lang, code, mode, fs, clock, damaged>>
 
 \* environment
 Damage(f, sh) == /\ Faults /\ damaged < MaxDamage /\ clock < MaxClock /\ fs[f].shape = "good" /\ sh # "good"
                  /\ clock' = clock + 1 /\ damaged' = damaged + 1
                  /\ fs' = [fs EXCEPT ![f] = [ver |-> @.ver + 1, mtime |-> clock + 1, shape |-> sh]]
                  /\ act' = [name |-> "Damage", arg |-> f, res |-> sh, stale |-> FALSE]
+                 /\ repointed' = FALSE
                  /\ UNCHANGED <<lang, code, mode, own, loaded, ushort, ufull, defs, ushortLoaded, ufullLoaded>>
 Repair(f) == /\ Faults /\ clock < MaxClock /\ fs[f].shape # "good"
              /\ clock' = clock + 1
              /\ fs' = [fs EXCEPT ![f] = [ver |-> 1, mtime |-> clock + 1, shape |-> "good"]]    \* original content, new time
              /\ act' = [name |-> "Repair", arg |-> f, res |-> "ok", stale |-> FALSE]
+             /\ repointed' = FALSE
              /\ UNCHANGED <<lang, code, mode, own, loaded, ushort, ufull, defs, ushortLoaded, ufullLoaded, damaged>>
 
 Getters == {"set_mathml", "speech", "overview", "braille", "navigate"}
@@ -172,15 +193,17 @@ Next == \/ \E g \in Getters, miss \in BOOLEAN : Getter(g, miss)
         \/ \E m \in Modes : SetMode(m)
         \/ \E f \in AllFiles, sh \in Shapes : Damage(f, sh)
         \/ \E f \in AllFiles : Repair(f)
+        \/ SetRulesDir
 Spec == Init /\ [][Next]_vars
 
 ---------------------------------------------------------------------------
 TypeOK == lang \in Langs /\ code \in Codes /\ mode \in Modes
-AllGood == \A f \in AllFiles : fs[f].shape = "good"
 \* C10: whenever a getter answers (no faults), every table it consulted holds the file the preferences name
 Fresh == (~Faults /\ act.res = "ok") => ~act.stale
 \* C14: with every file repaired and file checking enabled, an answer is never computed from stale or degraded tables
 RecoveredUnderAll == (Faults /\ AllGood /\ mode = "All" /\ act.name \in Getters /\ act.res = "ok") => ~act.stale
+\* C14: ... or after re-pointing the rules directory, whatever the file-checking mode
+RecoveredAfterRepoint == (Faults /\ AllGood /\ repointed /\ act.name \in Getters) => (act.res = "ok" /\ ~act.stale)
 \* C14: with every file good, no getter fails
 NoErrorWhenAllGood == (AllGood /\ act.name \in Getters /\ mode = "All") => act.res = "ok"
 =============================================================================
